@@ -827,7 +827,7 @@ def classify_field_type(a, o):
     shape = G.sty_shape(a["type"])
     if len(shape) > 12:
         shape = shape[:2] + "…depth" + str(shape.count("("))
-    v = o.get("value") if isinstance(o, dict) else None
+    v = o.get("ok") if isinstance(o, dict) else None
     flags = ""
     if isinstance(v, dict):
         flags = ("/tokens" if v.get("tokens") else "") + ("/pattern" if v.get("pattern") else "") + ("/union" if any(" | " in f.replace("None | ", "") for f in v["fields"]) else "")
